@@ -44,6 +44,9 @@ func (g *gen) vis() []gvar {
 		if v.gl != nil && v.gl.Const {
 			continue
 		}
+		if g.blocked[v.name] {
+			continue // declared (shadows earlier entries of its name) but not usable yet
+		}
 		if !g.hidden(i) {
 			out = append(out, v)
 		}
@@ -342,7 +345,7 @@ type swalk struct {
 	p          *Program
 	gl         map[string]*Global
 	sfx        string
-	scopes     []map[string]bool
+	scopes     []map[string]*Ty
 	shadowed   map[string]*Ty  // package-level names shadowed in this function -> type of the shadow
 	ifDone     map[string]bool // ... and an if statement completed since
 	forDone    map[string]bool // ... and a for statement completed since
@@ -356,21 +359,48 @@ func (w *swalk) tag(s string) {
 	w.p.Tags["pkg_"+s+w.sfx] = true
 }
 
-func (w *swalk) push() { w.scopes = append(w.scopes, map[string]bool{}) }
+func (w *swalk) push() { w.scopes = append(w.scopes, map[string]*Ty{}) }
 func (w *swalk) pop()  { w.scopes = w.scopes[:len(w.scopes)-1] }
 
-func (w *swalk) local(name string) bool {
+func (w *swalk) local(name string) bool { return w.localTy(name) != nil }
+
+func (w *swalk) localTy(name string) *Ty {
 	for i := len(w.scopes) - 1; i >= 0; i-- {
-		if w.scopes[i][name] {
-			return true
+		if t := w.scopes[i][name]; t != nil {
+			return t
 		}
 	}
-	return false
+	return nil
+}
+
+// resolve: the type of the declaration the name denotes here (innermost local,
+// else the package level); nil if nothing declares it.
+func (w *swalk) resolve(name string) *Ty {
+	if t := w.localTy(name); t != nil {
+		return t
+	}
+	if d := w.gl[name]; d != nil {
+		return d.T
+	}
+	return nil
+}
+
+// use checks one use of a name at type t against the declaration it denotes
+// HERE: the generator must never emit a name at the type of a declaration that
+// is shadowed at this point (or not yet / no longer in scope).
+func (w *swalk) use(name string, t *Ty) {
+	d := w.resolve(name)
+	switch {
+	case d == nil:
+		w.p.Tags["pkg_BUG_unbound_name"] = true
+	case t != nil && !d.Eq(t):
+		w.p.Tags["pkg_BUG_ill_scoped_use"] = true
+	}
 }
 
 func (w *swalk) declare(name string, t *Ty, kind string) {
-	again := w.scopes[len(w.scopes)-1][name]
-	w.scopes[len(w.scopes)-1][name] = true
+	again := w.scopes[len(w.scopes)-1][name] != nil
+	w.scopes[len(w.scopes)-1][name] = t
 	d := w.gl[name]
 	if d == nil {
 		return
@@ -458,6 +488,7 @@ func (w *swalk) expr(e *Expr) {
 	}
 	switch e.K {
 	case "var", "cvar":
+		w.use(e.X, e.T)
 		w.read(e.X)
 	case "call":
 		for _, a := range e.Args {
@@ -470,8 +501,24 @@ func (w *swalk) expr(e *Expr) {
 }
 
 func (w *swalk) lval(l *LVal, alsoRead bool) {
+	t := w.resolve(l.X)
 	for _, a := range l.Path {
 		w.expr(a.Idx)
+		switch {
+		case t == nil:
+		case a.Idx != nil && t.K == KArr:
+			t = t.Elem
+		case a.Idx == nil && t.K == KStruct && a.Fi < len(t.Fields):
+			t = t.Fields[a.Fi]
+		default:
+			w.p.Tags["pkg_BUG_ill_scoped_use"] = true
+			t = nil
+		}
+	}
+	if t == nil && w.resolve(l.X) == nil {
+		w.p.Tags["pkg_BUG_unbound_name"] = true
+	} else if t != nil && l.T != nil && !t.Eq(l.T) {
+		w.p.Tags["pkg_BUG_ill_scoped_use"] = true
 	}
 	if alsoRead || len(l.Path) > 0 {
 		w.read(l.X)
@@ -492,11 +539,19 @@ func (w *swalk) stmt(s *Stmt) {
 		w.declare(s.X, s.T, "local")
 	case "define":
 		w.expr(s.E)
-		for _, x := range s.Xs {
+		for i, x := range s.Xs {
 			if w.gl[x] != nil && !w.local(x) {
 				w.tag("BUG_define_of_package_name")
 			}
-			w.scopes[len(w.scopes)-1][x] = true
+			t := s.E.T
+			if len(s.Xs) > 1 && s.E.Fn != nil && i < len(s.E.Fn.Results) {
+				t = s.E.Fn.Results[i]
+			}
+			if t == nil {
+				t = tyBool // unknown (never compared: the generator types every define)
+				w.p.Tags["pkg_BUG_untyped_define"] = true
+			}
+			w.scopes[len(w.scopes)-1][x] = t
 		}
 	case "assign":
 		w.expr(s.E)
@@ -522,7 +577,7 @@ func (w *swalk) stmt(s *Stmt) {
 	case "for":
 		w.inFor++
 		w.push()
-		w.scopes[len(w.scopes)-1][s.X] = true
+		w.scopes[len(w.scopes)-1][s.X] = tInt(32)
 		w.block(s.Then)
 		w.pop()
 		w.inFor--
@@ -535,7 +590,20 @@ func (w *swalk) stmt(s *Stmt) {
 		}
 	case "retnamed":
 		for _, x := range s.Xs {
+			w.use(x, nil)
 			w.read(x)
 		}
 	}
+}
+
+// illScoped: the scope-aware walk found a use of a name that does not denote,
+// at that point, the declaration the generator meant (a generator defect: such
+// a program is invalid MPCL and invalid in the reference alike).
+func illScoped(p *Program) bool {
+	for t := range p.Tags {
+		if len(t) > 8 && t[:8] == "pkg_BUG_" {
+			return true
+		}
+	}
+	return false
 }
